@@ -4,6 +4,7 @@ import PflDrv.CFG
 import PflDrv.PDA
 import PflDrv.FST
 import PflDrv.Indexed
+import PflDrv.Regex
 open Lean PflDrv
 
 def dispatch (j : Json) : R Json := do
@@ -13,6 +14,7 @@ def dispatch (j : Json) : R Json := do
   else if op.startsWith "pda." then pdaHandle op j
   else if op.startsWith "fst." then fstHandle op j
   else if op.startsWith "ig." then igHandle op j
+  else if op.startsWith "rx." then rxHandle op j
   else if op == "ping" then pure (Json.str "pong")
   else throw s!"unknown op {op}"
 
